@@ -169,7 +169,14 @@ def check(case):
 
         def decoded(y):
             cnt["decode_checked"] = cnt.get("decode_checked", 0) + 1
-            return alg.decode_output(reading(y))
+            r = alg.decode_output(reading(y))
+            # a string measured on all qubits carries the other qubits in front of the register
+            extra = qc.num_qubits - n
+            full = "".join(rng.choice("01") for _ in range(extra)) + reading(y)
+            r2 = alg.decode_output(full)
+            if str(r2) != str(r):
+                fail(f"{algo}_decode_full_string", f"form {fname}: decode_output({full!r}) = {r2!r} but decode_output({reading(y)!r}) = {r!r}")
+            return r
 
         def val_ok(got, y):
             expv = codec.decode(argt, [(y >> i) & 1 for i in range(n)])
